@@ -40,6 +40,15 @@ class SymByteArray(object):
         else:
             self.buf[k] = v
 
+    def __delitem__(self, k):
+        del self.buf[k]
+
+    def __iter__(self):
+        return iter(self.buf)
+
+    def clear(self):
+        del self.buf[:]
+
     def __eq__(self, o):
         return SymBytes(tuple(self.buf)) == o
 
